@@ -192,7 +192,34 @@ def _hdr_data(op, o):
     return []
 
 
+def first_read_oracle(case):
+    lrev = None
+    for i, (line, out) in enumerate(zip(case.lines, case.impl or [])):
+        t, o = line.split(), out.split()
+        if t[0] == "role":
+            lrev = int(t[2].split("=")[1]) if len(t) > 2 and t[1] == "follower" else None
+            continue
+        if lrev is None or t[0] not in N_READS or len(o) < 2 or o[1] == "err":
+            continue
+        hdrs = []
+        if t[0] == "nstream":
+            hdrs = [int(x.rsplit("|", 1)[1]) for x in o[1].split(",") if "|" in x]
+            if "end" in o:
+                hdrs.append(int(o[o.index("end") + 1]))
+        elif o[1].isdigit():
+            hdrs = [int(o[1])]
+        low = [h for h in hdrs if h < lrev]
+        if low:
+            return ("line %d: a follower answered `%s` at revision %d although the leader's read revision, which it has to adopt "
+                    "BEFORE it reads, was %d: %s" % (i + 1, line[:60], low[0], lrev, out[:160]), "follower-read-below-leader-revision")
+    return None
+
+
 def oracle(case):
+    if case.meta.get("first_read"):
+        hit = first_read_oracle(case)
+        if hit:
+            return hit
     impl = case.impl or []
     if impl and (impl[-1].startswith("CRASHED") or impl[-1] == "TIMEOUT"):
         return ("the node process died / hung while serving native requests: %s" % impl[-1][:300], "native-process-died")
@@ -240,10 +267,25 @@ def oracle(case):
     return None
 
 
+def follower_first_read_case(engine, kind):
+    """a follower whose leader is AHEAD: the very first read after each move of the leader's revision is of one kind
+    (stream / range / get / count / partitions at revision 0 = latest): it must be answered at the revision adopted for
+    THIS request - the sync comes first, then "latest" is resolved"""
+    a, b = PREFIX + b"/", PREFIX + b"0"
+    ops = {"stream": "nstream %s %s 0" % (hx(ikey(a)), hx(ikey(b))), "range": "nrange %s %s 0 0" % (hx(a), hx(b)),
+           "get": "nget %s 0" % hx(PREFIX + b"/a"), "count": "ncount %s %s" % (hx(a), hx(b)), "parts": "nparts %s %s" % (hx(a), hx(b))}
+    lines = [hist.cfg_line(engine), "ncreate %s %s" % (hx(PREFIX + b"/a"), hx(b"v1")), "rev", "ncreate %s %s" % (hx(PREFIX + b"/b"), hx(b"v2")), "rev"]
+    for step in (7, 19, 40):
+        lines += ["role follower lrev=%d" % (hist.INIT + 2 + step), ops[kind], "rev"]
+    lines += ["role leader", "ncreate %s %s" % (hx(PREFIX + b"/c"), hx(b"v3")), "rev", ALL]
+    return core.Case("native", lines, {"engine": engine, "first_read": kind})
+
+
 def check(rep, tier, seed, prop="C20"):
     """the native-handler part of a property check: run the cases, judge them (oracles first, then correspondence)"""
     n = 12 if tier == "quick" else 1500
     cases = [gen_case(seed, i, ENGINES[i % 3]) for i in range(n)]
+    cases += [follower_first_read_case(e, k) for e in (ENGINES if tier != "quick" else ENGINES[:1]) for k in ("stream", "range", "get", "count", "parts")]
     core.run_cases(cases)
     refused = sum(1 for c in cases for out in (c.impl or []) if _refused(out))
     rep.cov.setdefault("native_handlers", {}).update({"scripts": len(cases), "refusals_observed": refused})
